@@ -20,6 +20,9 @@ var knownPlanTopLevelJSONFields = []string{
 	"tasks",
 }
 
+// knownPlanJSONFields are the field names of a plan document at any level.
+var knownPlanJSONFields = []string{"title", "body", "tasks", "after"}
+
 // PlanInput is the JSON schema for `ergo plan`.
 type PlanInput struct {
 	Title *string         `json:"title,omitempty"` // epic title (required)
@@ -48,6 +51,10 @@ func ParsePlanInput() (*PlanInput, *ValidationError) {
 			Error:   "parse_error",
 			Message: "no input: pipe JSON to stdin",
 		}
+	}
+
+	if verr := checkJSONKeys(jsonBytes, knownPlanJSONFields); verr != nil {
+		return nil, verr
 	}
 
 	var input PlanInput
